@@ -171,6 +171,28 @@ class TermRule(BaseRule):
             return tv(T("dict", *[term_of(a) for a in avs]), none=False)
         return None
 
+    def augassign(self, it, st, stmt, v):
+        """x op= y  is  x = x op y  as a term"""
+        load = copy.deepcopy(stmt.target)
+        for n in ast.walk(load):
+            if hasattr(n, "ctx"):
+                n.ctx = ast.Load()
+        vals, _ = it.eval(st, load)
+        if len(vals) != 1:
+            return None
+        cur = vals[0][1]
+        opn = {ast.Add: "add", ast.Sub: "sub", ast.Mult: "mul", ast.BitOr: "bitor", ast.BitAnd: "bitand", ast.Mod: "mod", ast.FloorDiv: "floordiv", ast.Div: "div"}.get(type(stmt.op))
+        if opn is None:
+            return None
+        if cur.kind == "const" and v.kind == "const":
+            try:
+                return const(_fold_binop(stmt.op, cur.val, v.val))
+            except Exception:
+                pass
+        if opn == "add" and cur.sym and cur.sym.startswith("list(") and isinstance(stmt.target, ast.Name):
+            return None
+        return tv(T(opn, term_of(cur), term_of(v)), none=False)
+
     def subscript(self, it, st, node, base, parts, is_slice):
         r = self.subscript_hook(it, st, node, base, parts, is_slice)
         if r is not None:
